@@ -165,6 +165,9 @@ def collect_drift_boost(rep, spec, exe, seed):
     execs = []
     n_runs = 0
     for i, params in enumerate(uniq[:10]):
+        if "weak" not in params:
+            # compare_exchange_weak may fail spuriously wherever it is used: one such failure per execution
+            params = dict(params, weak="1")
         for split in (0, 2):
             if time.time() - t0 > budget:
                 break
